@@ -196,6 +196,113 @@ Definition spec_removeall (t : tree) (p : path) : option (cat * tree) :=
     end
   end.
 
+(* ---------- rename, link, symlink (server: os.Rename for RENAME and posix-rename@openssh.com alike, os.Link, os.Symlink) ---------- *)
+(* q = p ++ r *)
+Fixpoint strip (p q : path) : option path :=
+  match p, q with
+  | [], _ => Some q
+  | x :: p', y :: q' => if x =? y then strip p' q' else None
+  | _ :: _, [] => None
+  end.
+
+Definition move_entry (src dst : path) (e : path * kind) : path * kind :=
+  match strip src (fst e) with Some r => (dst ++ r, snd e) | None => e end.
+
+(* the parent directory of a path, as the kernel resolves it (following links: a link on the way is "not modelled") *)
+Definition parent_look (t : tree) (p : path) : look := stat t (removelast p).
+
+(* rename(2). Order of the checks as in the kernel: both parents are resolved first, then the source's last component, then
+   the ancestry rule, then the target. The last components are never followed. *)
+Definition sys_rename (t : tree) (src dst : path) : option (cat * tree) :=
+  match src, dst with
+  | [], _ | _, [] => None                          (* the served root itself: not modelled *)
+  | _, _ =>
+    match parent_look t src with
+    | LUndef => None | LNoEnt => Some (TNotExist, t) | LNotDir => Some (TOther, t)
+    | LKind KFile | LKind KLink => Some (TOther, t)
+    | LKind KDir =>
+      match parent_look t dst with
+      | LUndef => None | LNoEnt => Some (TNotExist, t) | LNotDir => Some (TOther, t)
+      | LKind KFile | LKind KLink => Some (TOther, t)
+      | LKind KDir =>
+        match kind_at t src with
+        | None => Some (TNotExist, t)
+        | Some ks =>
+          if path_eqb src dst then Some (TOk, t)
+          else if under src dst then Some (TOther, t)                  (* into its own subtree: EINVAL *)
+          else
+            let moved := map (move_entry src dst) (remove_entry t dst) in
+            match kind_at t dst with
+            | None => Some (TOk, moved)
+            | Some kd =>
+              match ks, kd with
+              | KDir, KDir => match children t dst with [] => Some (TOk, moved) | _ => Some (TOther, t) end   (* ENOTEMPTY *)
+              | KDir, _ => Some (TOther, t)                              (* ENOTDIR *)
+              | _, KDir => Some (TOther, t)                              (* EISDIR *)
+              | _, _ => Some (TOk, moved)                                (* the target is replaced *)
+              end
+            end
+        end
+      end
+    end
+  end.
+
+(* os.Rename: package os first looks at the new name; an existing directory there is an error of its own (EEXIST) - after the
+   error of the old name, should that be bad too - so that os.Rename never replaces a directory, not even an empty one *)
+Definition p_rename (t : tree) (src dst : path) : option (cat * tree) :=
+  match src, dst with
+  | [], _ | _, [] => None
+  | _, _ =>
+    match lstat t dst with
+    | LUndef => None
+    | LKind KDir =>
+        match lstat t src with
+        | LUndef => None
+        | LNoEnt => Some (TNotExist, t)
+        | LNotDir => Some (TOther, t)
+        | LKind _ => Some (TOther, t)
+        end
+    | _ => sys_rename t src dst
+    end
+  end.
+
+(* link(2) without AT_SYMLINK_FOLLOW (os.Link): a link to a symbolic link is a link to the link itself. A directory source is
+   EPERM - the permission category, which the model does not have: not modelled. *)
+Definition p_link (t : tree) (src dst : path) : option (cat * tree) :=
+  match src, dst with
+  | [], _ | _, [] => None
+  | _, _ =>
+    match parent_look t src with
+    | LUndef => None | LNoEnt => Some (TNotExist, t) | LNotDir => Some (TOther, t)
+    | LKind KFile | LKind KLink => Some (TOther, t)
+    | LKind KDir =>
+      match kind_at t src with
+      | None => Some (TNotExist, t)
+      | Some KDir => None
+      | Some ks =>
+        match parent_look t dst with
+        | LUndef => None | LNoEnt => Some (TNotExist, t) | LNotDir => Some (TOther, t)
+        | LKind KFile | LKind KLink => Some (TOther, t)
+        | LKind KDir =>
+          match kind_at t dst with Some _ => Some (TOther, t) | None => Some (TOk, t ++ [(dst, ks)]) end
+        end
+      end
+    end
+  end.
+
+(* symlink(2): the target text is not looked at, except that an empty one is ENOENT before anything else *)
+Definition p_symlink (empty_target : bool) (t : tree) (lnk : path) : option (cat * tree) :=
+  if empty_target then Some (TNotExist, t) else
+  match lnk with
+  | [] => Some (TOther, t)
+  | _ =>
+    match parent_look t lnk with
+    | LUndef => None | LNoEnt => Some (TNotExist, t) | LNotDir => Some (TOther, t)
+    | LKind KFile | LKind KLink => Some (TOther, t)
+    | LKind KDir => match kind_at t lnk with Some _ => Some (TOther, t) | None => Some (TOk, t ++ [(lnk, KLink)]) end
+    end
+  end.
+
 (* well-formed trees: every path once, no entry for the root, the parent of every entry is a directory *)
 Definition wf (t : tree) : Prop :=
   NoDup (map fst t) /\ forall p k, In (p, k) t -> p <> [] /\ kind_at t (removelast p) = Some KDir.
